@@ -338,3 +338,178 @@ func precededOnAllPaths(fn *ssa.Function, target ssa.Instruction, a func(ssa.Ins
 	found := pathAvoiding(fn, nil, a, func(i ssa.Instruction) bool { return i == target })
 	return found == nil
 }
+
+// retVal returns the i-th returned value of r, looking through go/ssa's defer-spilled results
+// (`*res = v; rundefers; return *res`).
+func retVal(r *ssa.Return, i int) ssa.Value {
+	v := r.Results[i]
+	u, ok := v.(*ssa.UnOp)
+	if !ok || u.Op != token.MUL {
+		return v
+	}
+	a, ok := u.X.(*ssa.Alloc)
+	if !ok {
+		return v
+	}
+	// last store to the cell on the straight-line path into the return
+	b := r.Block()
+	for hops := 0; hops < 4 && b != nil; hops++ {
+		for k := len(b.Instrs) - 1; k >= 0; k-- {
+			if s, ok := b.Instrs[k].(*ssa.Store); ok && s.Addr == ssa.Value(a) {
+				return s.Val
+			}
+		}
+		if len(b.Preds) != 1 {
+			break
+		}
+		b = b.Preds[0]
+	}
+	return v
+}
+
+func hasRealReferrers(v ssa.Value) bool {
+	refs := v.Referrers()
+	if refs == nil {
+		return true
+	}
+	for _, r := range *refs {
+		if _, ok := r.(*ssa.DebugRef); !ok {
+			return true
+		}
+	}
+	return false
+}
+
+// pathAvoidingE is pathAvoiding with a set of cut edges that paths may not cross, starting at the first
+// instruction of block `start` (from == nil) or right after `from`.
+func pathAvoidingE(start *ssa.BasicBlock, from ssa.Instruction, block func(ssa.Instruction) bool, goal func(ssa.Instruction) bool,
+	cut []Edge, goalBlock *ssa.BasicBlock) (ssa.Instruction, bool) {
+	type pos struct {
+		b *ssa.BasicBlock
+		i int
+	}
+	cutm := map[Edge]bool{}
+	for _, e := range cut {
+		cutm[e] = true
+	}
+	var st []pos
+	if from != nil {
+		st = append(st, pos{from.Block(), instrIndex(from) + 1})
+	} else {
+		st = append(st, pos{start, 0})
+	}
+	seen := map[*ssa.BasicBlock]bool{}
+	for len(st) > 0 {
+		p := st[len(st)-1]
+		st = st[:len(st)-1]
+		blocked := false
+		for i := p.i; i < len(p.b.Instrs); i++ {
+			ins := p.b.Instrs[i]
+			if block != nil && block(ins) {
+				blocked = true
+				break
+			}
+			if goal != nil && goal(ins) {
+				return ins, true
+			}
+		}
+		if blocked {
+			continue
+		}
+		for k, s := range p.b.Succs {
+			if cutm[Edge{p.b, k}] {
+				continue
+			}
+			if goalBlock != nil && s == goalBlock {
+				if len(p.b.Instrs) > 0 {
+					return p.b.Instrs[len(p.b.Instrs)-1], true
+				}
+				return nil, true
+			}
+			if !seen[s] {
+				seen[s] = true
+				st = append(st, pos{s, 0})
+			}
+		}
+	}
+	return nil, false
+}
+
+// rangeLoop describes a lowered `for ... range` loop.
+type rangeLoop struct {
+	Header *ssa.BasicBlock // block that tests for termination
+	Body   *ssa.BasicBlock
+	Over   ssa.Value // ranged value (slice/map/string/chan), nil if unknown
+}
+
+func rangeLoops(fn *ssa.Function) []rangeLoop {
+	var out []rangeLoop
+	for _, b := range fn.Blocks {
+		switch b.Comment {
+		case "rangeindex.body":
+			l := rangeLoop{Body: b}
+			if len(b.Preds) > 0 {
+				l.Header = b.Preds[0]
+			}
+			for _, ins := range b.Instrs {
+				switch x := ins.(type) {
+				case *ssa.IndexAddr:
+					if l.Over == nil {
+						l.Over = x.X
+					}
+				case *ssa.Index:
+					if l.Over == nil {
+						l.Over = x.X
+					}
+				}
+			}
+			if l.Over == nil && l.Header != nil {
+				// `for i := range xs` / `for range xs`: bound is len(xs) computed before the loop
+				for _, p := range l.Header.Preds {
+					for _, ins := range p.Instrs {
+						if c, ok := ins.(*ssa.Call); ok {
+							if bi, ok := c.Call.Value.(*ssa.Builtin); ok && bi.Name() == "len" {
+								l.Over = c.Call.Args[0]
+							}
+						}
+					}
+				}
+			}
+			out = append(out, l)
+		case "rangeiter.body":
+			l := rangeLoop{Body: b}
+			if len(b.Preds) > 0 {
+				l.Header = b.Preds[0]
+				for _, ins := range l.Header.Instrs {
+					if n, ok := ins.(*ssa.Next); ok {
+						if r, ok := n.Iter.(*ssa.Range); ok {
+							l.Over = r.X
+						}
+					}
+				}
+			}
+			out = append(out, l)
+		}
+	}
+	return out
+}
+
+func isAppendCall(ins ssa.Instruction) bool {
+	c, ok := ins.(*ssa.Call)
+	if !ok {
+		return false
+	}
+	bi, ok := c.Call.Value.(*ssa.Builtin)
+	return ok && bi.Name() == "append"
+}
+
+// paramNamed returns fn's parameter with the given name.
+func paramNamed(fn *ssa.Function, name string) *ssa.Parameter {
+	for _, p := range fn.Params {
+		if p.Name() == name {
+			return p
+		}
+	}
+	anchorFail("%s has no parameter %q", fn, name)
+	return nil
+}
